@@ -391,9 +391,54 @@ func (r *rewriter) rewriteMoves(f *ast.File) {
 	})
 }
 
+// rewriteSyncMapRanges makes the iteration order of sync.Map.Range deterministic:
+// m.Range(f) becomes verifhook.SyncMapRange(m.Range, f), which takes a snapshot through the real
+// Range, sorts it by key and then calls f in that order (Range is only weakly consistent anyway;
+// the runtime's order depends on a per-process hash seed and made C16/C17 replays diverge).
+func (r *rewriter) rewriteSyncMapRanges(f *ast.File) {
+	deferred := map[*ast.CallExpr]bool{}
+	ast.Inspect(f, func(n ast.Node) bool {
+		switch x := n.(type) {
+		case *ast.DeferStmt:
+			deferred[x.Call] = true
+		case *ast.GoStmt:
+			deferred[x.Call] = true
+		}
+		return true
+	})
+	ast.Inspect(f, func(n ast.Node) bool {
+		call, ok := n.(*ast.CallExpr)
+		if !ok || deferred[call] || len(call.Args) != 1 {
+			return true
+		}
+		sel, ok := call.Fun.(*ast.SelectorExpr)
+		if !ok || sel.Sel.Name != "Range" {
+			return true
+		}
+		t := r.info.TypeOf(sel.X)
+		if t == nil {
+			return true
+		}
+		if p, ok := t.(*types.Pointer); ok {
+			t = p.Elem()
+		}
+		named, ok := t.(*types.Named)
+		if !ok || named.Obj().Pkg() == nil || named.Obj().Pkg().Path() != "sync" || named.Obj().Name() != "Map" {
+			return true
+		}
+		method := &ast.SelectorExpr{X: sel.X, Sel: ast.NewIdent("Range")}
+		call.Fun = &ast.SelectorExpr{X: ast.NewIdent("verifhook"), Sel: ast.NewIdent("SyncMapRange")}
+		call.Args = []ast.Expr{method, call.Args[0]}
+		r.changed = true
+		st.ranges++
+		return true
+	})
+}
+
 func (r *rewriter) file(f *ast.File) bool {
 	r.rewritePools(f)
 	r.rewriteMoves(f)
+	r.rewriteSyncMapRanges(f)
 	for _, d := range f.Decls {
 		fd, ok := d.(*ast.FuncDecl)
 		if !ok || fd.Body == nil {
